@@ -337,6 +337,9 @@ func genC15(seed uint64, tier Tier) *Case {
 	}
 	c.Oracles.Retention = true
 	c.Mode = "cold" // a mature hot store refuses searches that reach below its oldest fraction; retention itself is the same
+	if !veryTight && g.r.Bool(0.12) {
+		return genC15Overlap(g, c)
+	}
 	c.Steps = append(c.Steps, Step{Kind: "start"})
 	rounds := g.r.Range(2, 5)
 	for round := 1; round <= rounds; round++ {
@@ -420,6 +423,47 @@ func genC15(seed uint64, tier Tier) *Case {
 			c.Steps = append(c.Steps, Step{Kind: "start_cancelled", Ms: int64(g.r.Range(1, 10))})
 		}
 		c.Steps = append(c.Steps, Step{Kind: "start"}, Step{Kind: "validate", Label: fmt.Sprintf("round%d", round)})
+	}
+	return c
+}
+
+// genC15Overlap is the sub-profile "two seals in flight": seals run in their own goroutines and nothing
+// orders them, so a big fraction can still be sealing when the small one rotated out after it is already
+// published. A crash at that moment leaves an older fraction in its active form next to a newer sealed
+// one; after the restart retention must still take the oldest first.
+func genC15Overlap(g *gen, c *Case) *Case {
+	c.Profile = "c15-overlap"
+	c.Knobs.StepCostNs = []int{100000, 300000}[g.r.Intn(2)] // sealing costs simulated time in proportion to its work
+	c.Knobs.SyncLatencyUs = []int{0, 200}[g.r.Intn(2)]
+	c.Knobs.MaintenanceDelayMs = 20
+	c.Knobs.FracSize = uint64(g.r.Range(800, 1500))
+	c.Knobs.TotalSize = uint64(g.r.Range(14000, 24000))
+	g.smallDocs = true
+	c.Steps = append(c.Steps, Step{Kind: "start"})
+	if g.r.Bool(0.5) {
+		c.Steps = append(c.Steps, seqStep(g.bulk(g.r.Range(1, 4))), Step{Kind: "sleep", Ms: 60}, Step{Kind: "validate", Label: "warm"})
+	}
+	// the planned crash: right after (or before) the first .index published from now on
+	f := &simos.Fault{Group: 1, ImageSeed: g.r.Uint64(), After: g.r.Bool(0.8), Action: []string{"crash", "exit"}[g.r.Intn(2)], Op: "rename", PathSuffix: ".index", Nth: 1}
+	f.ImageMode = []string{"", "all", "all"}[g.r.Intn(3)]
+	c.Faults = append(c.Faults, f)
+	big := g.bulk(g.r.Range(25, 45))
+	small := g.bulk(g.r.Range(6, 9))
+	c.Steps = append(c.Steps,
+		seqStep(big), Step{Kind: "sleep", Ms: 21}, // a maintenance pass rotates the big fraction out and starts its seal
+		Step{Kind: "arm", Group: 1},
+		seqStep(small), Step{Kind: "sleep", Ms: int64(g.r.Range(21, 400))}, // the next pass rotates the small one out
+		Step{Kind: "disarm"})
+	if g.r.Bool(0.3) {
+		c.Steps = append(c.Steps, Step{Kind: "kill"})
+	}
+	c.Steps = append(c.Steps, Step{Kind: "start"}, Step{Kind: "validate", Label: "restarted"})
+	// ingestion goes on until retention has to take fractions
+	for i, n := 0, g.r.Range(4, 10); i < n; i++ {
+		c.Steps = append(c.Steps, seqStep(g.bulk(g.r.Range(3, 8))), Step{Kind: "sleep", Ms: 45}, Step{Kind: "validate", Label: fmt.Sprintf("more%d", i)})
+	}
+	if g.r.Bool(0.5) {
+		c.Steps = append(c.Steps, Step{Kind: "stop"}, Step{Kind: "start"}, Step{Kind: "validate", Label: "again"})
 	}
 	return c
 }
